@@ -22,6 +22,7 @@ CONSTANTS
   MaxRebootAsks = 1
   MaxCrashes = 2
   RestartRuns <- MCRestarts
+  FailSets <- MCFailNone
   Mut = "none"
 INVARIANT NoViolation
 INVARIANT PrintDone
